@@ -41,7 +41,7 @@ int vm_snprintf_calls;
 /* ------------------------------------------------------------------ CBMC models */
 double nondet_double(void);
 
-static int vm_digit(int c, int base) {
+int vm_digit(int c, int base) {
     int d;
     if (c >= '0' && c <= '9') d = c - '0';
     else if (c >= 'a' && c <= 'z') d = c - 'a' + 10;
